@@ -6,13 +6,19 @@ lvs_validator(checker, app, anchor) on legacy NDNApps over the virtual loop with
                  P-224 / P-256 / P-384 / P-521, RSA 1024 / 2048 / 3072, Ed25519. Every key of a world has its own
                  algorithm (world['alg']: key -> algorithm), so anchor, intermediate certificates and packet signer
                  are of different key types
-  materialise    world -> real names and wires (new_cert / self_sign / derive_cert, make_data)
-  Scenario       one world, several validator instances (one application + face each);
-                 stimuli = Env actions of the spec (NewValidator, Validate, FetchReply)
+  materialise    world -> real names and wires (new_cert / self_sign / derive_cert, make_data). world['alias']: key
+                 locators that carry the FULL name of a certificate packet (name + implicit SHA-256 digest of the packet
+                 served under that name / of another packet of that name / of a packet nobody has) or the KEY name;
+                 world['fp']: FreshnessPeriod of each certificate packet (positive / 0 / no such field)
+  Scenario       one world, several validator instances (one application + face each), each with a key storage of the
+                 kind the spec chose (default argument, the library's MemoryKeyStorage / EmptyKeyStorage, an
+                 application-supplied unbounded / bounded one); stimuli = Env actions of the spec (NewValidator,
+                 Validate, FetchReply, Heal, Forget)
 """
 import asyncio as aio
 import contextvars
 import logging
+from hashlib import sha256
 from datetime import datetime, timedelta
 
 from harness.appkit import Session, new_app, enc   # (use_repo runs on import)
@@ -243,17 +249,88 @@ def real_name(n, shape, twin_of=None):
     raise tlc.MachineryError('unknown shape %r' % (shape,))
 
 
+FP_VALUE = {'pos': 3600000, 'zero': 0, 'none': None}
+START = datetime(2020, 1, 1)
+
+
+def make_cert(full, pub, signer, fp):
+    """certificate packet named `full` (key name / issuer / version) for the public key bits `pub`; fp: FreshnessPeriod
+    class (TrustChain.tla: W.fp). 'pos' is what the library's new_cert writes; for the others the packet is put together
+    the way new_cert does it, with another MetaInfo (a certificate issued by another tool)."""
+    end = START + timedelta(days=7300)
+    if fp == 'pos':
+        cname, wire = sv2.new_cert(full[:-2], full[-2], pub, signer, START, end)
+        if enc.Name.to_bytes(cname) != enc.Name.to_bytes(full):
+            raise tlc.MachineryError('certificate name differs from the planned one: %s' % enc.Name.to_str(cname))
+        return bytes(wire)
+    cv = sv2.CertificateV2Value()
+    cv.name = full
+    cv.content = pub
+    cv.meta_info = enc.MetaInfo(content_type=enc.ContentType.KEY, freshness_period=FP_VALUE[fp])
+    cv.signature_info = sv2.CertificateV2SignatureInfo()
+    cv.signature_info.validity_period = sv2.ValidityPeriod()
+    cv.signature_info.validity_period.not_before = START.strftime('%Y%m%dT%H%M%S').encode()
+    cv.signature_info.validity_period.not_after = end.strftime('%Y%m%dT%H%M%S').encode()
+    markers = {}
+    cv._signer.set_arg(markers, signer)
+    value = cv.encode(markers=markers)
+    n = len(value) - cv._shrink_len.get_arg(markers)
+    tl, sl = enc.get_tl_num_size(enc.TypeNumber.DATA), enc.get_tl_num_size(n)
+    buf = bytearray(tl + sl + n)
+    enc.write_tl_num(enc.TypeNumber.DATA, buf)
+    enc.write_tl_num(n, buf, tl)
+    buf[tl + sl:] = memoryview(value)[0:n]
+    _, mi, content, _ = enc.parse_data(buf)
+    if mi.freshness_period != FP_VALUE[fp] or bytes(content) != bytes(pub):
+        raise tlc.MachineryError('certificate with FreshnessPeriod %s not built as planned' % fp)
+    return bytes(buf)
+
+
+def world_alias(world):
+    """W.alias without the entry that only keeps the JSON object non-empty"""
+    return {n: dict(a) for n, a in dict(world.get('alias') or {}).items() if dict(a).get('kind') in ('full', 'key')}
+
+
+def pins_resolvable(world):
+    """a full name contains the digest of a packet: a packet cannot name (through its key locator, directly or along the
+    key locators) a full name of itself. True iff every full name of the world can be computed."""
+    alias = world_alias(world)
+    certs = {k: dict(v) for k, v in dict(world['certs']).items()}
+    state = {}
+
+    def need_wire(n):            # the wire of certificate n needs the name of its key locator
+        if state.get(n) == 1:
+            return False
+        if state.get(n) == 2:
+            return True
+        state[n] = 1
+        a = alias.get(n)
+        ok = True
+        if a and a['pk'] != n:
+            ok = a['pk'] not in certs or need_wire(a['pk'])
+        else:
+            kl = certs[n]['kl']
+            a2 = alias.get(kl)
+            if a2 and a2['kind'] == 'full' and a2['pk'] in certs:
+                ok = need_wire(a2['pk'])
+        state[n] = 2 if ok else 1
+        return ok
+    return all(need_wire(n) for n in sorted(certs))
+
+
 def materialise(world, pool):
-    """world: dict with schema (iterable of pairs), shape, certs, pkts, sch, alg; must run inside a Session
+    """world: dict with schema (iterable of pairs), shape, certs, pkts, sch, alg, alias, fp; must run inside a Session
     (certificate versions come from the virtual clock)."""
     m = Mat()
     m.sch = world['sch']
     shape = dict(world['shape'])
     certs = {k: dict(v) for k, v in dict(world['certs']).items()}
     pkts = {k: dict(v) for k, v in dict(world['pkts']).items()}
+    alias = world_alias(world)
+    fp = dict(world.get('fp') or {})
     ver = enc.Component.from_version(sv2.timestamp())
     for n, sh in shape.items():
-        if sh == 'nil':
+        if sh == 'nil' or n in alias:
             continue
         rn = real_name(n, sh, dict(world.get('twin') or {}).get(n))
         m.name[n] = rn + [ver] if not sh.startswith('d') else rn
@@ -276,11 +353,51 @@ def materialise(world, pool):
 
     replay = dict(world.get('replay') or {})
 
+    busy = set()
+
+    def name_of(n):
+        """real name of abstract name n; a full name needs the wire of the packet it pins"""
+        if n in m.name:
+            return m.name[n]
+        a = alias[n]
+        base = name_of(a['base'])
+        if a['kind'] == 'key':
+            rn = base[:-2]
+        else:
+            pk = a['pk']
+            if pk == a['base'] or pk in certs:
+                digest = sha256(wire_of(pk)).digest()
+            else:
+                digest = sha256(b'a packet nobody serves: ' + pk.encode()).digest()
+            rn = base + [enc.Component.from_bytes(digest, enc.Component.TYPE_IMPLICIT_SHA256)]
+        m.name[n] = rn
+        return rn
+
+    def wire_of(n):
+        """wire of the certificate packet served for request name n"""
+        if n in m.wire:
+            return m.wire[n]
+        if n in busy:
+            raise tlc.MachineryError('world not materialisable: the full name %s depends on its own packet' % n)
+        busy.add(n)
+        a = alias.get(n)
+        if a and a['pk'] != n:
+            w = wire_of(a['pk'])                  # the full name of the packet served under the plain name
+        else:
+            c = certs[n]
+            sg, forge = signer_for(c, n)
+            w = make_cert(name_of(a['base']) if a else m.name[n], pub(c['key']), sg, fp.get(a['pk'] if a else n, 'pos'))
+            if forge:
+                w = _flip_last(w)
+        busy.discard(n)
+        m.wire[n] = w
+        return w
+
     def signer_for(el, n=None):
-        kl = None if el['kl'] == 'none' else m.name[el['kl']]
+        kl = None if el['kl'] == 'none' else name_of(el['kl'])
         if el['sig'] == 'replay':
             src = replay[n]
-            _, _, _, sp = enc.parse_data(m.wire[src])
+            _, _, _, sp = enc.parse_data(wire_of(src) if src in certs else pkt_wire(src))
             sk = (certs.get(src) or pkts.get(src))['sig']
             return _ReplaySigner(alg.get(sk, 'p256'), kl, sp.signature_value_buf), False
         if el['sig'] == 'digest':
@@ -312,20 +429,32 @@ def materialise(world, pool):
             k = named_key(el)
             return _signer(alg[k], kl, priv(k)), True
         return _signer(alg[el['sig']], kl, priv(el['sig'])), False
-    start = datetime(2020, 1, 1)
-    for n, c in sorted(certs.items(), key=lambda x: x[1]['sig'] == 'replay'):      # replayed signatures after their sources
-        sg, forge = signer_for(c, n)
-        full = m.name[n]
-        cname, wire = sv2.new_cert(full[:-2], full[-2], pub(c['key']), sg, start, start + timedelta(days=7300))
-        if enc.Name.to_bytes(cname) != enc.Name.to_bytes(full):
-            raise tlc.MachineryError('certificate name differs from the planned one: %s' % enc.Name.to_str(cname))
-        m.wire[n] = _flip_last(bytes(wire)) if forge else bytes(wire)
-    for n, p in sorted(pkts.items(), key=lambda x: x[1]['sig'] == 'replay'):
-        sg, forge = signer_for(p, n)
-        wire = enc.make_data(m.name[n], enc.MetaInfo(freshness_period=1000), b'payload of ' + n.encode(), sg)
-        m.wire[n] = _flip_last(bytes(wire)) if forge else bytes(wire)
+
+    def pkt_wire(n):
+        if n not in m.wire:
+            sg, forge = signer_for(pkts[n], n)
+            wire = enc.make_data(m.name[n], enc.MetaInfo(freshness_period=1000), b'payload of ' + n.encode(), sg)
+            m.wire[n] = _flip_last(bytes(wire)) if forge else bytes(wire)
+        return m.wire[n]
+    for n in sorted(certs):
+        wire_of(n)
+    for n in sorted(pkts):
+        pkt_wire(n)
+    for n in sorted(alias):
+        name_of(n)
     for n, rn in m.name.items():
         m.abstract[enc.Name.to_bytes(rn)] = n
+    if len(m.abstract) != len(m.name):
+        raise tlc.MachineryError('two abstract names with one real name')
+    # which requests a delivered packet satisfies (TrustChain.tla: Sat), by the rules of the protocol on the real bytes:
+    # the Interests for its name and those for its name + the digest of the packet
+    for n in certs:
+        a = alias.get(n, {'base': n, 'pk': n})
+        want = {x for x in m.name if (x in alias and alias[x]['kind'] == 'full' or x not in alias)
+                and alias.get(x, {'base': x})['base'] == a['base'] and (x not in alias or alias[x]['pk'] == a['pk'])}
+        got = {x for x in m.name if satisfies(m.wire[n], m.name[x])}
+        if want != got:
+            raise tlc.MachineryError('the packet served for %s satisfies Interests for %s, the world says %s' % (n, sorted(got), sorted(want)))
     # the compiled schema must decide the naming relation exactly as the world's table says
     chk = checker_for(m.sch)
     rel = {tuple(x) for x in world['schema']}
@@ -339,6 +468,52 @@ def materialise(world, pool):
                 raise tlc.MachineryError('schema %s: check(%s, %s) = %s but the world says %s' % (
                     m.sch, enc.Name.to_str(m.name[a]), enc.Name.to_str(m.name[b]), got, want))
     return m
+
+
+def satisfies(data_wire, interest_name):
+    """would this Data satisfy an Interest (CanBePrefix not set) of that name: the Data's name, or its full name"""
+    dname, _, _, _ = enc.parse_data(data_wire)
+    dn, iname = enc.Name.to_bytes(dname), enc.Name.to_bytes(interest_name)
+    if dn == iname:
+        return True
+    full = dname + [enc.Component.from_bytes(sha256(bytes(data_wire)).digest(), enc.Component.TYPE_IMPLICIT_SHA256)]
+    return enc.Name.to_bytes(full) == iname
+
+
+class AppStorage(cascade_validator.PublicKeyStorage):
+    """a key storage supplied by the application: a mapping that keeps the `cap` entries saved last (None: all) and can
+    lose what it holds (TrustChain.tla: store kinds "app", "fifo1", "fifo2"; Forget)"""
+    def __init__(self, cap=None):
+        self.cap = cap
+        self.d = {}
+
+    def load(self, name):
+        return self.d.get(enc.Name.to_bytes(name))
+
+    def save(self, name, key_bits):
+        k = enc.Name.to_bytes(name)
+        if k not in self.d and self.cap is not None:
+            while self.d and len(self.d) >= self.cap:
+                del self.d[next(iter(self.d))]
+            if self.cap == 0:
+                return
+        self.d[k] = bytes(key_bits)
+
+    def forget(self):
+        self.d.clear()
+
+
+def new_storage(kind):
+    """the `storage` argument for the storage kind the spec chose (None = leave the argument out)"""
+    if kind in (None, 'default'):
+        return None
+    if kind == 'memory':
+        return cascade_validator.MemoryKeyStorage()
+    if kind == 'empty':
+        return cascade_validator.EmptyKeyStorage()
+    if kind in ('app', 'fifo1', 'fifo2'):
+        return AppStorage({'app': None, 'fifo1': 1, 'fifo2': 2}[kind])
+    raise tlc.MachineryError('unknown key storage kind %r' % (kind,))
 
 
 def reset_default_storages():
@@ -386,6 +561,8 @@ class Scenario:
             self.sender[a] = []                 # task that sent the i-th packet of face a
             self._tap(a)
         self.validator, self.status = {}, {v: 'none' for v in self.insts}
+        self.storage = {}                      # instance -> the storage object it was given (None: default argument)
+        self.alias = world_alias(world)
         self.task = {s: None for s in self.slots}
         self.cur, self.asked = {}, {s: [] for s in self.slots}
         self.pending = {a: [] for a in self.apps}      # unanswered certificate Interests: (abstract name, wire)
@@ -457,12 +634,16 @@ class Scenario:
         del self.done_order[:]
 
     # ---- stimuli
-    def new_validator(self, v, a):
+    def new_validator(self, v, a, store='default'):
         # the anchor is handed over in a mutable buffer (what self_sign / new_cert return) which the caller then
         # reuses: the validator must have taken what it needs at construction
         buf = bytearray(self.mat.wire[a])
+        self.storage[v] = new_storage(store)
         try:
-            self.validator[v] = lvs_validator(checker_for(self.mat.sch), self.app[self.app_of(v)], buf)
+            if self.storage[v] is None:
+                self.validator[v] = lvs_validator(checker_for(self.mat.sch), self.app[self.app_of(v)], buf)
+            else:
+                self.validator[v] = lvs_validator(checker_for(self.mat.sch), self.app[self.app_of(v)], buf, self.storage[v])
             self.status[v] = 'ok'
         except ValueError:
             self.status[v] = 'refused'
@@ -494,9 +675,29 @@ class Scenario:
         self.sess.loop.settle()
         self._scan()
 
+    def same_packet(self, m, n):
+        """two request names of one packet (TrustChain.tla: SameP)"""
+        am, an = self.alias.get(m, {'base': m, 'pk': m}), self.alias.get(n, {'base': n, 'pk': n})
+        return am['base'] == an['base'] and am['pk'] == an['pk']
+
     def heal(self, n):
-        """the certificate n, which could not be fetched so far, is published"""
-        self.serv[n] = 'yes'
+        """the certificate n, which could not be fetched so far, is published (under every name it has)"""
+        for m in self.serv:
+            if self.same_packet(m, n):
+                self.serv[m] = 'yes'
+
+    def forget(self, v):
+        """the application-supplied key storage of instance v loses what it holds"""
+        st = self.storage.get(v)
+        if not isinstance(st, AppStorage):
+            raise tlc.MachineryError('Forget on instance %s whose key storage is not the application\'s' % v)
+        st.forget()
+
+    def deliverable(self, a, n):
+        """bound of the spec (FetchReply): the packet of n is not delivered to application a while an Interest is pending
+        there that it would satisfy although the world answers that Interest with another packet"""
+        return all(self.same_packet(m, n) for m, _ in self.pending[a]
+                   if m in self.mat.name and satisfies(self.mat.wire[n], self.mat.name[m]))
 
     def waiting(self):
         """[(application, abstract certificate name)] with unanswered Interests, oldest first, no duplicates"""
@@ -514,7 +715,9 @@ class Scenario:
         """answer the Interest(s) for certificate n pending on application a (one Data / Nack answers all of them)"""
         mine = [w for m, w in self.pending[a] if m == n]
         if kind == 'yes':
-            self.pending[a] = [(m, w) for m, w in self.pending[a] if m != n]
+            # what the Data satisfies is decided on the real bytes (its name, or its name + digest)
+            self.pending[a] = [(m, w) for m, w in self.pending[a]
+                               if not (m in self.mat.name and satisfies(self.mat.wire[n], self.mat.name[m]))]
             self._deliver(a, self.mat.wire[n])
         elif kind == 'nack':
             self.pending[a] = [(m, w) for m, w in self.pending[a] if m != n]
